@@ -73,9 +73,7 @@ def guard(where: str, fn, *a, **kw):
     """Call code under test; convert its exceptions into Guarded (a property failure, not a harness error)."""
     try:
         return fn(*a, **kw)
-    except RecursionError:
-        raise
-    except Exception as e:  # noqa: BLE001 - anything the library raises is data for the oracle
+    except Exception as e:  # noqa: BLE001 - anything the library raises (RecursionError too) is data for the oracle
         raise Guarded(where, e) from None
 
 
